@@ -328,15 +328,37 @@ func analyse(p *pkgInfo, f *ast.File, name string) {
 			}
 		}
 	}
+	called := map[*ast.SelectorExpr]bool{}
+	ast.Inspect(f, func(n ast.Node) bool {
+		if c, ok := n.(*ast.CallExpr); ok {
+			if sel, ok := unparen(c.Fun).(*ast.SelectorExpr); ok {
+				called[sel] = true
+			}
+		}
+		return true
+	})
+	for _, d := range f.Decls {
+		// `go x.Wait()` / `defer`-less method values: the call inside a go statement is a
+		// CallExpr too, but it is replaced textually by the go-call rewrite and would end up
+		// calling the real blocking method
+		ast.Inspect(d, func(n ast.Node) bool {
+			if g, ok := n.(*ast.GoStmt); ok {
+				if sel, ok := unparen(g.Call.Fun).(*ast.SelectorExpr); ok {
+					delete(called, sel)
+				}
+			}
+			return true
+		})
+	}
 	ast.Inspect(f, func(n ast.Node) bool {
 		switch x := n.(type) {
 		case *ast.GoStmt:
 			if _, ok := x.Call.Fun.(*ast.FuncLit); ok {
 				rep.Modelled["go func literal"]++
+			} else if goCallRewritable(p, x) {
+				rep.Modelled["go call"]++
 			} else {
-				// arguments of `go f(x)` are evaluated at the go statement; wrapping the call
-				// in a closure would change that, so this form is not rewritten
-				rep.Unmodelled = append(rep.Unmodelled, Note{"go statement on a named function or method value", pos(x.Pos())})
+				rep.Unmodelled = append(rep.Unmodelled, Note{"go statement on a builtin or conversion", pos(x.Pos())})
 			}
 		case *ast.SendStmt:
 			rep.Modelled["channel send"]++
@@ -370,6 +392,13 @@ func analyse(p *pkgInfo, f *ast.File, name string) {
 					full = fn.FullName()
 				} else if tn, ok := obj.(*types.TypeName); ok {
 					full = tn.Pkg().Path() + "." + tn.Name()
+				}
+				switch full {
+				case "(*sync.Mutex).Lock", "(*sync.RWMutex).Lock", "(*sync.RWMutex).RLock", "(*sync.Once).Do", "(*sync.WaitGroup).Wait",
+					"(*sync.WaitGroup).Add", "(*sync.WaitGroup).Done":
+					if !called[x] {
+						rep.Unmodelled = append(rep.Unmodelled, Note{"method value of " + full + " (not a direct call)", pos(x.Pos())})
+					}
 				}
 				switch {
 				case strings.HasPrefix(full, "(*sync.Cond)"), full == "sync.Cond", full == "sync.NewCond",
@@ -602,6 +631,35 @@ func instrument(p *pkgInfo, f *ast.File, src []byte, simImport string) []byte {
 					add(off(fl.Body.Lbrace)+1, 0, " zzsim.TaskEnter(zzT); defer zzsim.TaskExit(zzT); ")
 					add(off(x.End()), 0, " }")
 					rep.Rewrites["go func literal"]++
+				} else if goCallRewritable(p, x) {
+					// go f(a, b)  ->  { t := TaskNew(); zzf, zza0, zza1 := f, a, b; go func() { TaskEnter(t); defer TaskExit(t); zzf(zza0, zza1) }() }
+					// the function value and the arguments are still evaluated at the go
+					// statement (short variable declarations need no type text); constants and
+					// nil are passed through textually so that they keep their untyped nature
+					txt := func(e ast.Node) string { return string(src[off(e.Pos()):off(e.End())]) }
+					lhs := []string{"zzf"}
+					rhs := []string{txt(x.Call.Fun)}
+					var args []string
+					for i, a := range x.Call.Args {
+						tv, ok := p.info.Types[a]
+						if ok && (tv.Value != nil || tv.IsNil()) {
+							args = append(args, txt(a))
+							continue
+						}
+						v := fmt.Sprintf("zza%d", i)
+						lhs = append(lhs, v)
+						rhs = append(rhs, txt(a))
+						args = append(args, v)
+					}
+					ell := ""
+					if x.Call.Ellipsis.IsValid() {
+						ell = "..."
+					}
+					add(off(x.Pos()), off(x.End())-off(x.Pos()),
+						"{ zzT := zzsim.TaskNew(); "+strings.Join(lhs, ", ")+" := "+strings.Join(rhs, ", ")+
+							"; go func() { zzsim.TaskEnter(zzT); defer zzsim.TaskExit(zzT); zzf("+strings.Join(args, ", ")+ell+") }() }")
+					rep.Rewrites["go call"]++
+					return false
 				}
 			case *ast.SendStmt:
 				add(off(x.Chan.Pos()), 0, "zzsim.Send(")
@@ -871,4 +929,24 @@ func selectRewritable(x *ast.SelectStmt) bool {
 		}
 	}
 	return n >= 1 && n <= 16
+}
+
+// goCallRewritable: `go f(args)` where f is an ordinary function value (not a builtin,
+// not a conversion) and no argument contains a function literal (whose body would need
+// its own instrumentation inside the replaced text).
+func goCallRewritable(p *pkgInfo, g *ast.GoStmt) bool {
+	fun := unparen(g.Call.Fun)
+	if tv, ok := p.info.Types[fun]; ok {
+		if tv.IsBuiltin() || tv.IsType() {
+			return false
+		}
+	}
+	bad := false
+	ast.Inspect(g.Call, func(n ast.Node) bool {
+		if _, ok := n.(*ast.FuncLit); ok {
+			bad = true
+		}
+		return !bad
+	})
+	return !bad
 }
